@@ -64,7 +64,7 @@ impl Suite for CrashSuite {
     }
     fn generate(&self, seed: u64, tier: &str) -> Vec<Case> {
         let mut r = Rng::new(seed ^ 0xC09);
-        let n = if tier == "thorough" { 120 } else { 8 };
+        let n = if tier == "thorough" { 20 } else { 8 };
         let mut cases = vec![];
         for i in 0..n {
             let with_restart = i % 2 == 0;
@@ -83,7 +83,7 @@ impl Suite for CrashSuite {
             let mut tv = vec![Sx::a("truncate")];
             tv.extend(trunc.into_iter().map(Sx::int));
             items.push(Sx::l(tv));
-            items.push(Sx::l(vec![Sx::a("cap"), Sx::int(if tier == "thorough" { 100000 } else { 32 })]));
+            items.push(Sx::l(vec![Sx::a("cap"), Sx::int(if tier == "thorough" { 60 } else { 32 })]));
             cases.push(Case { class, input: Sx::l(items) });
         }
         cases
@@ -122,11 +122,11 @@ pub fn all() -> Vec<Box<dyn Suite>> {
             name: "c08_history",
             salt: 0xC08,
             fams: vec![
-                (Family { factors: &[1, 4, 999], ..fam("dense") }, 14),
-                (Family { factors: &[1, 4, 999], tiny_wal: true, bursts: true, max_ops: 10, ..fam("dense-bgflush") }, 14),
-                (Family { factors: &[0], max_ops: 8, ..fam("dense-recompact") }, 6),
+                (Family { factors: &[1, 4, 999], ..fam("dense") }, 26),
+                (Family { factors: &[1, 4, 999], tiny_wal: true, bursts: true, max_ops: 10, ..fam("dense-bgflush") }, 22),
+                (Family { factors: &[0], max_ops: 8, ..fam("dense-recompact") }, 8),
             ],
-            thorough_scale: 12,
+            thorough_scale: 8,
             witnesses: vec![],
         }),
         // C18: ingest / flush cycles, every factor, tiny WAL limits, sub-partition limits
@@ -134,10 +134,10 @@ pub fn all() -> Vec<Box<dyn Suite>> {
             name: "c18_history",
             salt: 0xC18,
             fams: vec![
-                (Family { restarts: false, evicts: false, ..fam("cycles") }, 14),
-                (Family { restarts: false, evicts: false, tiny_wal: true, bursts: true, max_ops: 10, ..fam("cycles-bgflush") }, 16),
+                (Family { restarts: false, evicts: false, ..fam("cycles") }, 26),
+                (Family { restarts: false, evicts: false, tiny_wal: true, bursts: true, max_ops: 10, ..fam("cycles-bgflush") }, 24),
             ],
-            thorough_scale: 12,
+            thorough_scale: 8,
             witnesses: vec![],
         }),
         // C13: column sets come and go
@@ -145,13 +145,13 @@ pub fn all() -> Vec<Box<dyn Suite>> {
             name: "c13_history",
             salt: 0xC13,
             fams: vec![
-                (Family { cols: Cols::VaryWithin, odd_names: true, factors: &[999], ..fam("vary-within") }, 12),
-                (Family { cols: Cols::VaryWithin, odd_names: true, factors: &[999], tiny_wal: true, max_ops: 10, ..fam("vary-within-bgflush") }, 8),
-                (Family { cols: Cols::VaryAcross, odd_names: true, factors: &[1, 4], ..fam("vary-across") }, 10),
+                (Family { cols: Cols::VaryWithin, odd_names: true, factors: &[999], ..fam("vary-within") }, 20),
+                (Family { cols: Cols::VaryWithin, odd_names: true, factors: &[999], tiny_wal: true, max_ops: 10, ..fam("vary-within-bgflush") }, 12),
+                (Family { cols: Cols::VaryAcross, odd_names: true, factors: &[1, 4], ..fam("vary-across") }, 16),
                 (Family { cols: Cols::VaryAcross, odd_names: true, factors: &[0], max_ops: 8, ..fam("vary-across-recompact") }, 4),
                 (Family { cols: Cols::VaryAcross, odd_names: true, compressible: true, factors: &[0, 1], restarts: false, max_ops: 6, ..fam("long-compressible-names") }, 2),
             ],
-            thorough_scale: 12,
+            thorough_scale: 8,
             witnesses: vec![("vary-across-recompact/witness-F3/restart", witness_f3())],
         }),
         // C07: maintenance steps on NULL-heavy / absent / hex-packed columns
@@ -168,7 +168,7 @@ pub fn all() -> Vec<Box<dyn Suite>> {
                 (Family { strings: true, hex: true, factors: &[0, 1], restarts: false, max_ops: 6, ..fam("hex-strings") }, 3),
                 (Family { strings: true, compressible: true, factors: &[0, 1], restarts: false, max_ops: 6, ..fam("compressible-strings") }, 2),
             ],
-            thorough_scale: 12,
+            thorough_scale: 8,
             witnesses: vec![("nulls-compaction/witness-F1", witness_f1()), ("dense/witness-F3/restart", witness_f3())],
         }),
     ]
